@@ -523,7 +523,7 @@ impl FormatSpec {
                 magnitude if magnitude.is_infinite() => Ok("inf".to_owned()),
                 _ => match self.precision {
                     Some(precision) => Ok(float::format_general(
-                        precision,
+                        if precision == 0 { 1 } else { precision },
                         magnitude,
                         Case::Lower,
                         self.alternate_form,
